@@ -56,6 +56,18 @@ func (e *Engine) initExternals() {
 		"math.Float64bits": math.Float64bits, "math.Float64frombits": math.Float64frombits, "math.Float32bits": math.Float32bits, "math.Float32frombits": math.Float32frombits,
 		"math.Round": math.Round, "math.Mod": math.Mod, "math.Max": math.Max, "math.Min": math.Min, "math.Sqrt": math.Sqrt, "math.Pow10": math.Pow10,
 		"bytes.Equal": bytes.Equal, "bytes.Compare": bytes.Compare, "bytes.HasPrefix": bytes.HasPrefix,
+		// assembly kernels below the standard library (reached when library code such as
+		// bufio / text scanners / generated parsers of dependencies is interpreted)
+		"internal/bytealg.IndexByteString":     func(s string, c byte) int { return strings.IndexByte(s, c) },
+		"internal/bytealg.IndexByte":           func(b []byte, c byte) int { return bytes.IndexByte(b, c) },
+		"internal/bytealg.LastIndexByteString": func(s string, c byte) int { return strings.LastIndexByte(s, c) },
+		"internal/bytealg.LastIndexByte":       func(b []byte, c byte) int { return bytes.LastIndexByte(b, c) },
+		"internal/bytealg.CountString":         func(s string, c byte) int { return strings.Count(s, string([]byte{c})) },
+		"internal/bytealg.Count":               func(b []byte, c byte) int { return bytes.Count(b, []byte{c}) },
+		"internal/bytealg.IndexString":         func(a, b string) int { return strings.Index(a, b) },
+		"internal/bytealg.Index":               func(a, b []byte) int { return bytes.Index(a, b) },
+		"internal/bytealg.Equal":               func(a, b []byte) bool { return bytes.Equal(a, b) },
+		"internal/bytealg.Compare":             func(a, b []byte) int { return bytes.Compare(a, b) },
 	}
 	for name, fn := range natives {
 		t[name] = e.bridge(name, fn)
@@ -428,6 +440,11 @@ func (e *Engine) initMiscExternals() {
 		prefixExt{"slices.SortFunc[", e.sortFuncExt},
 		prefixExt{"slices.SortStableFunc[", e.sortFuncExt},
 	)
+	// yang-parser looks for XPath plugins (*.so) in /lib/xpath/plugins: modelled as "the
+	// directory does not exist" (os.Open fails, the function returns nil)
+	t["github.com/sdcio/yang-parser/xpath.openPlugins"] = func(fr *frame, a []value) value {
+		return zeroResults(fr.fn)
+	}
 	t["regexp.Compile"] = func(fr *frame, a []value) value {
 		re, err := regexp.Compile(a[0].(string))
 		if err != nil {
